@@ -1,5 +1,6 @@
 // C10 — memory and stream loading are equivalent wherever buffer boundaries fall; stream save == memory save.
 #include "scen_util.h"
+#include "zoo_gen.h"
 
 namespace hz {
 
@@ -66,11 +67,84 @@ static Outcome SizeClassLeg(RunCtx& ctx, int archive)
 	return out;
 }
 
+// Std-adapter leg: the same differential for a struct holding every std adapter (containers pre-sized from the estimated size,
+// maps loaded through VisitKeys, which needs backward seeks on streams)
+static Outcome ZooLeg(RunCtx& ctx, int archive)
+{
+	Source& s = ctx.src;
+	ArchiveOps& ops = GetOps(archive);
+	const std::string an = ArchiveName(archive);
+	SerializationOptions o = GenLoadOptions(s, sim::L_CFG, archive);
+	ZooGenCfg zg;
+	zg.archive = archive;
+	zg.maxLen = s.chance(sim::L_DOC, 1, 4) ? 60 : 6;
+	Zoo z;
+	GenZoo(s, sim::L_DOC, z, zg);
+	if (archive == A_CSV) EnsureCsvRow(z);
+	Outcome out;
+	out.cfgKey = an + "|zoo";
+	std::string bytes;
+	CallResult sv = SaveZooWith(ops, z, bytes, o, OutCfg{});
+	if (!sv.ok) return out;
+	if (archive != A_MSGPACK && bytes.size() >= 3 && bytes.compare(0, 3, "\xEF\xBB\xBF") == 0) return out;
+	const std::string validBytes = bytes;
+	bool corrupted = false;
+	if (s.chance(sim::L_FAULT, 1, 3))
+	{
+		std::string what;
+		const uint32_t n = 1 + s.draw(sim::L_FAULT, 3);
+		for (uint32_t i = 0; i < n; ++i) what += CorruptOnce(s, sim::L_FAULT, bytes, archive == A_MSGPACK, ctx) + " ";
+		if (archive != A_MSGPACK && (!IsValidUtf8NoNul(bytes) || (bytes.size() >= 3 && bytes.compare(0, 3, "\xEF\xBB\xBF") == 0))) bytes = validBytes;
+		else { corrupted = true; ctx.note("corruption: " + what); }
+	}
+	ctx.note("zoo leg: archive=" + an + " bytes=" + std::to_string(bytes.size()) + (corrupted ? " corrupted" : ""));
+	ctx.count("leg.zoo");
+	const bool csv = archive == A_CSV;
+	auto fresh = [&](Zoo& t) { t.skipIntKeyMaps = z.skipIntKeyMaps; t.csvRoot = z.csvRoot; };
+	Zoo zm;
+	fresh(zm);
+	sim::steps_begin(3000ull * (bytes.size() + 4096));
+	sim::stream_call_budget(64 * (bytes.size() + 4096) * 8);
+	const CallResult rM = LoadZooWith(ops, zm, bytes, o, InCfg{});
+	sim::steps_end();
+	if (!rM.isStd) return Violation("WRONG_EXCEPTION", "archive=" + an + " model=zoo dir=load entry=mem", "non-std exception");
+	const auto fm = rM.ok ? ZooFields(zm, csv) : std::map<std::string, std::string>();
+	const uint32_t nCfg = 1 + s.draw(sim::L_IO, 2);
+	for (uint32_t j = 0; j < nCfg; ++j)
+	{
+		const InCfg c = DrawStreamCfg(s, sim::L_IO);
+		Zoo zs;
+		fresh(zs);
+		LoadInfo info;
+		const uint64_t sfBefore = sim::ev_kind_count(sim::EV_R_SEEK_FAIL);
+		sim::steps_begin(3000ull * (bytes.size() + 4096));
+		const CallResult rS = LoadZooWith(ops, zs, bytes, o, c, {}, false, &info);
+		sim::steps_end();
+		const bool seekFailed = sim::ev_kind_count(sim::EV_R_SEEK_FAIL) != sfBefore;
+		out.nontrivial = true;
+		const std::string tags = "archive=" + an + " model=zoo dir=load entry=" + (c.seekable ? "stream:file" : "stream:pipe") + (corrupted ? " corrupted=1" : " corrupted=0") + " m=" + rM.cat + " s=" + rS.cat;
+		if (!rS.isStd) return Violation("WRONG_EXCEPTION", tags, "non-std exception");
+		if (!c.seekable && seekFailed && !rS.ok) { ctx.count("pipe_seek_relaxed"); continue; }
+		if (rM.ok && rS.ok)
+		{
+			const std::string d = ZooDiff(fm, ZooFields(zs, csv));
+			if (!d.empty()) return Violation("DIVERGENCE", tags + " what=value", "memory and stream loads succeeded with different results: " + d + " cfg=" + c.str());
+		}
+		else if (!rM.ok && !rS.ok)
+		{
+			if (rM.cat != rS.cat) return Violation("DIVERGENCE", tags + " what=category", "different error categories: memory=" + rM.cat + " (" + rM.what + ") stream=" + rS.cat + " (" + rS.what + ") cfg=" + c.str());
+		}
+		else return Violation("DIVERGENCE", tags + " what=outcome", "memory=" + rM.cat + " (" + rM.what + ") stream=" + rS.cat + " (" + rS.what + ") cfg=" + c.str());
+	}
+	return out;
+}
+
 Outcome RunC10(RunCtx& ctx)
 {
 	Source& s = ctx.src;
 	const int archive = static_cast<int>(s.draw(sim::L_CFG, A_COUNT));
 	if (s.chance(sim::L_CFG, 1, 64)) return SizeClassLeg(ctx, archive);
+	if (s.chance(sim::L_CFG, 1, 6)) return ZooLeg(ctx, archive);
 	ArchiveOps& ops = GetOps(archive);
 	GenCfg g;
 	g.archive = archive;
